@@ -179,11 +179,33 @@ pub struct TextItem<C: Col> {
     /// Which of the equivalent API routes builds the styles and the `Text` (0 = the plain builders):
     /// bits 0..2 text style, bits 3..4 `Text` constructor, bits 5..6 character style.
     pub route: u32,
+    /// `character_spacing` of the copy of the built-in font that is used (0 = the built-in font itself).
+    pub spacing: u32,
+}
+
+/// Copies of all built-in fonts with `character_spacing` 1..=3 (built-in fonts have none; the spacing
+/// fill is a code path of its own in the text renderer).
+fn spaced_font(idx: usize, spacing: u32) -> &'static MonoFont<'static> {
+    static TABLE: OnceLock<Vec<MonoFont<'static>>> = OnceLock::new();
+    let t = TABLE.get_or_init(|| {
+        let mut v = Vec::with_capacity(FONTS.len() * 3);
+        for (_, f, _) in FONTS.iter() {
+            for s in 1..=3u32 {
+                v.push(MonoFont { character_spacing: s, ..**f });
+            }
+        }
+        v
+    });
+    &t[idx * 3 + (spacing as usize - 1)]
 }
 
 impl<C: Col> TextItem<C> {
     pub fn font(&self) -> &'static MonoFont<'static> {
-        FONTS[self.font].1
+        if self.spacing == 0 {
+            FONTS[self.font].1
+        } else {
+            spaced_font(self.font, self.spacing.min(3))
+        }
     }
     fn char_style_plain(&self) -> MonoTextStyle<'static, C> {
         let mut b = MonoTextStyleBuilder::new().font(self.font());
@@ -309,12 +331,20 @@ impl<C: Col> TextItem<C> {
         format!(
             "Text{{font:{}, text:{:?}, pos:{:?}, text_color:{:?}, background:{:?}, underline:{:?}, strikethrough:{:?}, alignment:{:?}, baseline:{:?}, line_height:{:?}}}{}",
             FONTS[self.font].0, self.text, self.pos, self.text_color, self.background, self.underline, self.strikethrough, self.alignment, self.baseline, self.line_height,
-            if self.route == 0 { String::new() } else { format!(" api_route:{}", self.route) }
+            if self.route == 0 && self.spacing == 0 { String::new() } else { format!(" api_route:{} character_spacing:{}", self.route, self.spacing) }
         )
     }
 }
 
 pub const UNMAPPED: &[char] = &['\u{1}', '\t', '\u{7f}', '\u{80}', '\u{2603}', '\u{1F600}', '\u{FFFD}', '\u{0}'];
+/// The same characters interleaved with one character at every boundary of the UTF-8 encoding lengths
+/// and lead bytes (U+7FF / U+800, U+FFFF / U+10000, U+3FFFF, U+FFFFF / U+100000, char::MAX) and around the
+/// surrogate gap; none of them is in a built-in mapping. (Entry 2k is UNMAPPED[k], so a tape word that
+/// selected UNMAPPED[k] still does in half of its range.)
+pub const UNMAPPED_WIDE: &[char] = &[
+    '\u{1}', '\u{7FF}', '\t', '\u{800}', '\u{7f}', '\u{FFFF}', '\u{80}', '\u{10000}', '\u{2603}', '\u{3FFFF}', '\u{1F600}', '\u{100000}', '\u{FFFD}', '\u{10FFFF}',
+    '\u{0}', '\u{D7FF}',
+];
 
 /// A string over the font's mapping with unmapped characters and line breaks.
 pub fn gen_string(d: &mut Dec, font: usize, max_len: u32, newlines: bool, crlf: bool) -> String {
@@ -326,7 +356,7 @@ pub fn gen_string(d: &mut Dec, font: usize, max_len: u32, newlines: bool, crlf: 
         match d.u(0, 15) {
             0 | 1 if newlines => s.push('\n'),
             2 if newlines && crlf => s.push_str("\r\n"),
-            3 => s.push(d.pick(UNMAPPED)),
+            3 => s.push(d.pick(UNMAPPED_WIDE)),
             4 => s.push(' '),
             5..=9 => {
                 // printable ASCII (present in every built-in mapping except the katakana half of JIS)
@@ -419,11 +449,13 @@ pub fn gen_text<C: Col>(d: &mut Dec, r: i32, max_len: u32) -> TextItem<C> {
         alignment: d.pick(&[Alignment::Left, Alignment::Center, Alignment::Right]),
         baseline: d.pick(&[Baseline::Top, Baseline::Bottom, Baseline::Middle, Baseline::Alphabetic]),
         line_height: gen_line_height(d),
-        // auxiliary word 7: half of the cases use the plain builders
-        route: match d.aux_u(7, 0, 255) {
+        // auxiliary word 7: half of the cases use the plain builders (low 8 bits); a quarter of the cases
+        // use a copy of the font with character_spacing 1 or 2 (bits 8 and 9)
+        route: match d.aux_u(7, 0, 1023) & 0xff {
             0..=127 => 0,
             r => r,
         },
+        spacing: [0, 0, 0, 0, 0, 0, 1, 2][(d.aux_u(7, 0, 1023) >> 7) as usize],
     }
 }
 
